@@ -242,8 +242,10 @@ def run_job(job, seed, tier, workdir, log):
     """Run a job over its workers. Returns dict(summary..., violations=[...], inconclusive=[...])."""
     W = job.workers or NCPU
     total = job.count
-    if total and total < W * 4:
+    if total and total < W * 4 and not job.workers:
         W = max(1, total // 4) or 1
+    if total:
+        W = min(W, total)
     res = dict(evaluations=0, outcomes={}, counters={}, samples=[], setfiles={}, violations=[], inconclusive=[],
                sanitizer_reports=0, capped=False, internal_violations=0, records=[])
     tiern = 1 if tier == 'thorough' else 0
